@@ -3,8 +3,10 @@
 package c19
 
 import (
+	"errors"
 	"fmt"
 	"math/big"
+	"time"
 
 	"github.com/consensys/gnark-crypto/ecc"
 	"github.com/consensys/gnark/backend/witness"
@@ -44,13 +46,14 @@ type curveKit struct {
 	redirect func(ccs constraint.ConstraintSystem) (constraint.ConstraintSystem, constraint.GkrInfo, error)
 	// lyingOptions returns the solver options for one Solve of a redirected system and a getter for what the wrappers saw.
 	lyingOptions func(info constraint.GkrInfo, h hooks) ([]solver.Option, func() trace)
+	info         func(ccs constraint.ConstraintSystem) (constraint.GkrInfo, bool)
 	gateInfo     func(name string) (nbIn, degree, solvable int, ok bool)
 	roundTrip    func(info constraint.GkrInfo, ins []*big.Int, base [][]byte) error
 }
 
 var kits = []curveKit{
 	{
-		id: ecc.BN254, name: "bn254", mod: cv254.Modulus(), redirect: cv254.Redirect, gateInfo: cv254.GateInfo, roundTrip: cv254.NativeRoundTrip,
+		id: ecc.BN254, name: "bn254", mod: cv254.Modulus(), redirect: cv254.Redirect, info: cv254.Info, gateInfo: cv254.GateInfo, roundTrip: cv254.NativeRoundTrip,
 		lyingOptions: func(info constraint.GkrInfo, h hooks) ([]solver.Option, func() trace) {
 			tr := new(cv254.Trace)
 			o := cv254.Options(info, &cv254.Hooks{MutateIns: h.MutateIns, MutateOuts: h.MutateOuts, OwnProof: h.OwnProof, MutateProof: h.MutateProof}, tr)
@@ -60,7 +63,7 @@ var kits = []curveKit{
 		},
 	},
 	{
-		id: ecc.BLS12_377, name: "bls12-377", mod: cv377.Modulus(), redirect: cv377.Redirect, gateInfo: cv377.GateInfo, roundTrip: cv377.NativeRoundTrip,
+		id: ecc.BLS12_377, name: "bls12-377", mod: cv377.Modulus(), redirect: cv377.Redirect, info: cv377.Info, gateInfo: cv377.GateInfo, roundTrip: cv377.NativeRoundTrip,
 		lyingOptions: func(info constraint.GkrInfo, h hooks) ([]solver.Option, func() trace) {
 			tr := new(cv377.Trace)
 			o := cv377.Options(info, &cv377.Hooks{MutateIns: h.MutateIns, MutateOuts: h.MutateOuts, OwnProof: h.OwnProof, MutateProof: h.MutateProof}, tr)
@@ -128,10 +131,40 @@ func compile(k *curveKit, builder string, c frontend.Circuit) (ccs constraint.Co
 	return ccs, err
 }
 
+var errWatchdog = errors.New("c19: Solve did not return within the watchdog")
+
+const solveWatchdog = 6 * time.Minute
+
+// solve runs the real solver under a generous watchdog (a Solve that never
+// returns leaves its goroutine behind; the case is then inconclusive).
 func solve(ccs constraint.ConstraintSystem, w witness.Witness, opts ...solver.Option) (err error, panicked bool) {
-	pan, stack := vcore.Catch(func() { _, err = ccs.Solve(w, opts...) })
-	if pan != nil {
-		return fmt.Errorf("panic: %v\n%s", pan, stack), true
+	type res struct {
+		err error
+		pan bool
 	}
-	return err, false
+	ch := make(chan res, 1)
+	go func() {
+		var e error
+		pan, stack := vcore.Catch(func() { _, e = ccs.Solve(w, opts...) })
+		if pan != nil {
+			ch <- res{fmt.Errorf("panic: %v\n%s", pan, stack), true}
+			return
+		}
+		ch <- res{e, false}
+	}()
+	select {
+	case x := <-ch:
+		return x.err, x.pan
+	case <-time.After(solveWatchdog):
+		return errWatchdog, false
+	}
+}
+
+// watchdogged records an inconclusive case when err is the watchdog's.
+func watchdogged(r *vcore.Run, err error) bool {
+	if errors.Is(err, errWatchdog) {
+		r.Inconclusive("Solve did not return within the watchdog")
+		return true
+	}
+	return false
 }
